@@ -488,6 +488,54 @@ fn adversarial(thorough: bool) -> Vec<Value> {
             }
         }
     }
+    // --- several test files for one rules file, every ordered pair of {good, cut off, empty, wrong shape, not YAML, not UTF-8},
+    //     picked up by name order (-a) and in directory mode, in every output format
+    {
+        let good = json!("- name: t\n  input:\n    a: 1\n  expectations:\n    rules:\n      r: PASS\n");
+        let kinds: Vec<(&str, Value)> = vec![
+            ("good", good.clone()),
+            ("cut", json!("- name: t\n  input:\n    a: 1\n  expectations:\n    rul\n")),
+            ("empty", json!("")),
+            ("shape", json!("input: {a: 1}\n")),
+            ("notyaml", json!("{{{ - ]\n")),
+            ("notutf8", json!([255, 254, 0, 97])),
+        ];
+        for (_, ka) in &kinds {
+            for (_, kb) in &kinds {
+                for fmt in [vec![], vec!["-v"], vec!["-o", "json"], vec!["-o", "yaml"], vec!["-o", "junit"]] {
+                    let files = json!({"s/r.guard": "rule r { a == 1 }\n", "s/tests/r_a.yaml": ka, "s/tests/r_b.yaml": kb});
+                    let mut a1 = vec!["test", "-r", "@s/r.guard", "-t", "@s/tests", "-a"];
+                    a1.extend(fmt.iter());
+                    out.push(cli_case(&a1, files.clone(), "", "test-files-multi"));
+                    let mut a2 = vec!["test", "-d", "@s"];
+                    a2.extend(fmt.iter());
+                    out.push(cli_case(&a2, files.clone(), "", "test-files-multi"));
+                    let mut a3 = vec!["test", "-r", "@s/r.guard", "-t", "@s/tests/r_a.yaml", "-t", "@s/tests/r_b.yaml"];
+                    a3.extend(fmt.iter());
+                    out.push(cli_case(&a3, files, "", "test-files-multi"));
+                }
+            }
+        }
+    }
+    // --- comparison operators on every pair of operand shapes (empty and nested lists on either side), literal, query and
+    //     variable right-hand sides
+    {
+        let shapes = ["1", "\"a\"", "[]", "[1]", "[[1]]", "[[]]", "[1,2]", "[[1],[2]]", "{}", "{\"k\":[]}", "null", "[null]", "[{}]"];
+        for x in shapes {
+            for y in shapes {
+                let d = format!("{{\"x\":{},\"y\":{}}}", x, y);
+                let lit = if y == "null" { "\"null\"".to_string() } else { y.replace("{\"k\":[]}", "{k:[]}") };
+                let mut rules = String::new();
+                for (k, op) in ["in", "not in", "==", "!=", "<", ">=", "IN", "!IN"].iter().enumerate() {
+                    for (j, some) in ["", "some "].iter().enumerate() {
+                        rules.push_str(&format!("rule l{k}{j} {{ {some}x {op} {lit} }}\nrule q{k}{j} {{ {some}x {op} y }}\nrule v{k}{j} {{ let v = {lit}\n {some}x {op} %v }}\nrule w{k}{j} {{ {some}x[*] {op} {lit} }}\nrule n{k}{j} {{ not {some}x {op} y[*] }}\n", k = k, j = j, some = some, op = op, lit = lit));
+                    }
+                }
+                out.push(lib_case(&rules, &d, "operand-shapes"));
+                out.push(cli_case(&["validate", "-r", "@r.guard", "-d", "@d.json", "-S", "all"], json!({"r.guard": rules, "d.json": d}), "", "operand-shapes"));
+            }
+        }
+    }
     // --- test files: unknown status words, wrong shapes
     for t in ["- input: {a: 1}\n  expectations:\n    rules:\n      r: MAYBE\n", "- input: {a: 1}\n  expectations:\n    rules:\n      r: pass\n", "- input: {a: 1}\n", "- expectations:\n    rules:\n      r: PASS\n", "input: {a: 1}\n", "[]\n", "- input: ~\n  expectations:\n    rules: {}\n", "- input: [1]\n  expectations:\n    rules:\n      nosuch: PASS\n", "- name: 1\n  input: {a: &x 1, b: *x}\n  expectations:\n    rules:\n      r: PASS\n", "- input: {1: 2}\n  expectations:\n    rules:\n      r: PASS\n", ""] {
         for fmt in [vec![], vec!["-v"], vec!["-o", "json"], vec!["-o", "yaml"], vec!["-o", "junit"]] {
